@@ -1,4 +1,11 @@
 package main
 
 func registerMoreIntrinsics(e *Engine) {
+	in := e.intrinsics
+	nop := func(fr *frame, args []value) value { return nil }
+	for _, p := range []string{"github.com/gogo/protobuf/proto", "github.com/golang/protobuf/proto"} {
+		for _, f := range []string{"RegisterEnum", "RegisterType", "RegisterFile", "RegisterMapType", "RegisterExtension", "RegisterCustomType"} {
+			in[p+"."+f] = nop
+		}
+	}
 }
